@@ -371,6 +371,35 @@ def r09_4(ctx: Ctx) -> None:
            form=txt(loop.iter))
 
 
+def r09_6(ctx: Ctx) -> None:
+    """ the protein->DNA conversion and the exon walk that follows it go through the exons in ascending coordinate order;
+        that is the reading order (or its mirror) only for a gene that does not bridge the origin - for a gene that does,
+        the exons after the origin are read *after* those before it.  The coordinate-ordered code may therefore only run
+        on locations known not to bridge the origin (the bridging case is unrolled first) """
+    from ..cfg import CFG
+    from ..flow import fact_texts
+    qual = "Feature.get_sub_location_from_protein_coordinates"
+    func = ctx.fn(FEAT, qual)
+    cfg = CFG(func)
+    sites = [c for c in calls(func) if call_name(c) == "convert_protein_position_to_dna"]
+    sites += [c for c in calls(func) if call_name(c) == "sorted" and c.args and txt(c.args[0]).endswith(".parts")
+              and kwarg(c, "key") is not None and txt(kwarg(c, "key")).endswith(".start")]
+    if len(sites) < 2:
+        raise AnalysisError(f"{qual}: the conversion call and the coordinate-ordered exon walk were not found")
+    for call in sites:
+        facts = fact_texts(cfg, call)
+        guarded = any(f.startswith("not ") and ("bridges_origin" in f or "crosses_origin" in f) for f in facts)
+        ctx.ob("R09.6", FEAT, call, qual, f"coordinate-ordered step {txt(call)[:50]}", guarded,
+               "the coordinate-ordered conversion / exon walk runs only for genes that do not bridge the origin; a bridging "
+               "gene is unrolled first (its post-origin exons continue from the end of the record) and the result wrapped back",
+               detail="" if guarded else "for a forward gene join{[90:102),[0:21)} protein residues 0-2 map to [0:6) instead of [90:96)",
+               form=f"under {sorted(facts)[-3:]}")
+    unrolled = [c for c in calls(func) if last_attr(c) in ("_get_cross_origin_sub_location",)] + \
+        [c for c in calls(func) if "bridges_origin" in call_name(c) or last_attr(c) == "crosses_origin"]
+    ctx.ob("R09.6", FEAT, func, qual, "bridging genes handled", bool(unrolled),
+           "a gene that bridges the origin takes a dedicated path", form="; ".join(txt(c)[:50] for c in unrolled[:2]))
+
+
 SECMET = "antismash/common/secmet/"
 
 
@@ -444,3 +473,5 @@ def run(ctx: Ctx) -> None:
     r09_4(ctx)
     ctx.rule("R09.5", "codon_start is applied once per loaded feature", floor=1)
     r09_5(ctx)
+    ctx.rule("R09.6", "coordinate-ordered exon walks never see a gene that bridges the origin", floor=3)
+    r09_6(ctx)
